@@ -101,13 +101,18 @@ fn apply_single_patch(file_path: &Path, patch_content: &str) -> Result<()> {
     #[cfg(not(windows))]
     let result_to_write = result;
 
-    // Write the result back to the file
-    fs::write(file_path, &result_to_write)
-        .with_context(|| format!("Failed to write file: {}", file_path.display()))?;
+    // Write the result through a temporary file and rename it into place, exactly as apply does:
+    // writing in place fails on a read-only file that apply was able to edit.
+    let temp_path = file_path.with_extension(format!("{}.renamify.tmp", std::process::id()));
+    fs::write(&temp_path, &result_to_write)
+        .with_context(|| format!("Failed to write file: {}", temp_path.display()))?;
 
     // Restore original permissions
-    fs::set_permissions(file_path, original_permissions)
+    fs::set_permissions(&temp_path, original_permissions)
         .with_context(|| format!("Failed to restore permissions for: {}", file_path.display()))?;
+
+    fs::rename(&temp_path, file_path)
+        .with_context(|| format!("Failed to write file: {}", file_path.display()))?;
 
     Ok(())
 }
